@@ -563,6 +563,9 @@ def run(scn, full_log=False):
                         nontrivial = True
                         probe("leak_would_be_visible")
                     if prev_term == "C":
+                        # unreachable since /repo d60607c (the serving loop stops once the stream
+                        # is closed); if it ever fires again, cleanup through on_connection_close
+                        # is observable again (selftest/mutants/equivalent/C32-close-no-cleanup)
                         probe("observed_after_close_terminated_request")
                     if not lines and any(e[4] for e in earlier):
                         probe("plain_request_after_proxied_request")
